@@ -180,34 +180,28 @@ theorem quota_within_allowance (sv : Server) (user : String) (now : Int) (p : Po
     refused sv user now = false :=
   within_allowance sv user now p m hp hm hup hdown hall
 
-/- FULL-STRENGTH STATEMENT (property text: "new sessions refused with the quota status and nothing
-   relayed on them") — FALSE for the code as it is:
+/-- A refused open-session request carries the quota status and relays NOTHING to the server
+    application, whatever payload the client piggy-backed on the request; a request within the
+    allowance relays exactly the payload. (Full strength; the code used to queue the payload before
+    evaluating the quota — repaired by the `fix:` commit recorded in known_findings.txt.) -/
+theorem quota_refused_nothing_relayed (sv : Server) (user : String) (payload : List UInt8) (now : Int) :
+    ((onOpenRequest sv user payload now).refused = true →
+      (onOpenRequest sv user payload now).status = Mieru.Gen.statusQuotaExhausted.toNat ∧
+      (onOpenRequest sv user payload now).readable = []) ∧
+    ((onOpenRequest sv user payload now).refused = false →
+      (onOpenRequest sv user payload now).readable = payload) := by
+  simp only [onOpenRequest]
+  constructor
+  · intro h; simp [h, statusQuotaExhausted, Mieru.Gen.statusQuotaExhausted]
+  · intro h; simp [h]
 
-     theorem quota_refused_nothing_relayed (sv user payload now)
-         (h : (onOpenRequest sv user payload now).refused = true) :
-         (onOpenRequest sv user payload now).readable = []
-
-   because `inputData` queues the piggy-backed payload of the open-session request before it
-   evaluates the quota (see `Mieru.Quota.onOpenRequest`).  Proved instead: the partial statement with
-   the exact extra hypothesis, and the counterexample. -/
-
-/-- A refused open-session request carries the quota status, and relays nothing IF the client
-    piggy-backed no payload on the request. -/
-theorem quota_refused_nothing_relayed_partial (sv : Server) (user : String) (payload : List UInt8) (now : Int)
-    (h : (onOpenRequest sv user payload now).refused = true) (hp : payload = []) :
-    (onOpenRequest sv user payload now).status = Mieru.Gen.statusQuotaExhausted.toNat ∧
-    (onOpenRequest sv user payload now).readable = [] := by
-  simp only [onOpenRequest] at h ⊢
-  simp [h, hp, statusQuotaExhausted, Mieru.Gen.statusQuotaExhausted]
-
-/-- Witness of the deviation: user "a", 1 MB / 1 day quota, 2 MiB counted, a 3-byte payload on the
-    open request: refused, yet the 3 bytes are readable by the server application. -/
-theorem quota_refused_payload_counterexample :
-    ∃ (sv : Server) (user : String) (payload : List UInt8) (now : Int),
-      (onOpenRequest sv user payload now).refused = true ∧ (onOpenRequest sv user payload now).readable ≠ [] :=
-  ⟨{ policies := fun u => if u = "a" then some ⟨"a", [⟨1, 1⟩]⟩ else none,
-     metrics := fun u => if u = "a" then some ⟨[⟨1000, 2097152, 0⟩], []⟩ else none },
-   "a", [1, 2, 3], 2000 * nsPerMs, by decide⟩
+/-- Regression witness of the repaired defect: user "a", 1 MB / 1 day quota, 2 MiB counted, a 3-byte
+    payload on the open request: refused, and nothing is readable. -/
+example :
+    let sv : Server := { policies := fun u => if u = "a" then some ⟨"a", [⟨1, 1⟩]⟩ else none,
+                         metrics := fun u => if u = "a" then some ⟨[⟨1000, 2097152, 0⟩], []⟩ else none }
+    (onOpenRequest sv "a" [1, 2, 3] (2000 * nsPerMs)).refused = true ∧
+    (onOpenRequest sv "a" [1, 2, 3] (2000 * nsPerMs)).readable = [] := by decide
 
 /-- The constants of the model are the constants of the compiled repository. -/
 theorem counter_constants :
